@@ -1297,27 +1297,29 @@ ares_status_t ares_buf_parse_dns_str(ares_buf_t *buf, size_t remaining_len,
 ares_status_t ares_buf_append_num_dec(ares_buf_t *buf, size_t num, size_t len)
 {
   size_t i;
-  size_t mod;
+  /* Widest decimal representation of a size_t.  10^(max_digits-1) is the
+   * largest power of 10 that is representable, 10^max_digits is not. */
+  size_t max_digits = ares_count_digits(SIZE_MAX);
 
   if (len == 0) {
     len = ares_count_digits(num);
   }
 
-  mod = ares_pow(10, len);
-
+  /* Emit the digit at each position (position 1 is the least significant),
+   * most significant first.  The divisor is 10^(i-1), never 10^len, so it
+   * cannot overflow even when num uses every digit a size_t can have. */
   for (i = len; i > 0; i--) {
-    size_t        digit = (num % mod);
+    size_t        digit;
     ares_status_t status;
 
-    mod /= 10;
-
-    /* Silence coverity.  Shouldn't be possible since we calculate it above */
-    if (mod == 0) {
-      return ARES_EFORMERR; /* LCOV_EXCL_LINE: DefensiveCoding */
+    if (i > max_digits) {
+      /* Beyond the width of any size_t, can only be zero padding */
+      digit = 0;
+    } else {
+      digit = (num / ares_pow(10, i - 1)) % 10;
     }
 
-    digit  /= mod;
-    status  = ares_buf_append_byte(buf, '0' + (unsigned char)(digit & 0xFF));
+    status = ares_buf_append_byte(buf, '0' + (unsigned char)(digit & 0xFF));
     if (status != ARES_SUCCESS) {
       return status; /* LCOV_EXCL_LINE: OutOfMemory */
     }
